@@ -9,6 +9,7 @@ import (
 	"encoding/json"
 	"flag"
 	"fmt"
+	"go/ast"
 	"go/parser"
 	"go/token"
 	"os"
@@ -21,6 +22,9 @@ import (
 type rewrite struct {
 	File    string            `json:"file"`
 	Imports map[string]string `json:"imports"`
+	// Selects: rewrite every select statement of the file into a vsel.Select call
+	// (the choice among ready arms becomes something a harness can own).
+	Selects bool `json:"selects"`
 }
 
 type spec struct {
@@ -113,6 +117,7 @@ func main() {
 		}
 	}
 	merged := map[string]map[string]string{}
+	selects := map[string]bool{}
 	var order []string
 	for _, r := range rules {
 		if merged[r.File] == nil {
@@ -121,6 +126,9 @@ func main() {
 		}
 		for k, v := range r.Imports {
 			merged[r.File][k] = v
+		}
+		if r.Selects {
+			selects[r.File] = true
 		}
 	}
 	for _, f := range order {
@@ -133,6 +141,14 @@ func main() {
 		outData, n, err := rewriteImports(src, data, merged[f])
 		if err != nil {
 			die("%s: %v", f, err)
+		}
+		if selects[f] {
+			var ns int
+			outData, ns, err = rewriteSelects(f, outData)
+			if err != nil {
+				die("%s: %v", f, err)
+			}
+			n += ns
 		}
 		if n == 0 {
 			fmt.Fprintf(os.Stderr, "mkoverlay: %s: no listed import present (skipped)\n", f)
@@ -214,4 +230,125 @@ func rewriteImports(name string, data []byte, m map[string]string) ([]byte, int,
 		out = append(out[:e.start], append([]byte(e.text), out[e.end:]...)...)
 	}
 	return out, len(edits), nil
+}
+
+// rewriteSelects turns every select statement into a switch over vsel.Select,
+// by byte edits that keep every line where it was:
+//
+//	select {                      { c0 := vsel.RecvCase(ch); c1 := vsel.SendCase(out, v); switch vsel.Select("f.go:12", false, c0, c1) {
+//	case x, ok := <-ch:    =>     case 0: x, ok := c0.Val2();
+//	case out <- v:                case 1:
+//	}                             }}
+//
+// Channel and value expressions are evaluated once, in source order, on entry,
+// as the language specifies for select.
+func rewriteSelects(name string, data []byte) ([]byte, int, error) {
+	fset := token.NewFileSet()
+	f, err := parser.ParseFile(fset, name, data, parser.ParseComments)
+	if err != nil {
+		return nil, 0, err
+	}
+	off := func(p token.Pos) int { return fset.Position(p).Offset }
+	text := func(n ast.Node) string { return string(data[off(n.Pos()):off(n.End())]) }
+	type edit struct {
+		start, end int
+		text       string
+	}
+	var edits []edit
+	count := 0
+	var bad error
+	ast.Inspect(f, func(n ast.Node) bool {
+		if ls, ok := n.(*ast.LabeledStmt); ok {
+			if _, ok := ls.Stmt.(*ast.SelectStmt); ok {
+				bad = fmt.Errorf("%s: labelled select statement not supported", fset.Position(ls.Pos()))
+			}
+		}
+		sel, ok := n.(*ast.SelectStmt)
+		if !ok {
+			return true
+		}
+		count++
+		id := fmt.Sprintf("__vs%d_", off(sel.Pos()))
+		var setup []string
+		var names []string
+		hasDefault := false
+		k := 0
+		for _, st := range sel.Body.List {
+			cc := st.(*ast.CommClause)
+			hdrStart, hdrEnd := off(cc.Pos()), off(cc.Colon)+1
+			if cc.Comm == nil {
+				hasDefault = true
+				edits = append(edits, edit{hdrStart, hdrEnd, "case -1:"})
+				continue
+			}
+			v := fmt.Sprintf("%s%d", id, k)
+			names = append(names, v)
+			hdr := fmt.Sprintf("case %d:", k)
+			switch c := cc.Comm.(type) {
+			case *ast.SendStmt:
+				setup = append(setup, fmt.Sprintf("%s := vsel.SendCase(%s, %s)", v, text(c.Chan), text(c.Value)))
+			case *ast.ExprStmt: // <-ch
+				u := c.X.(*ast.UnaryExpr)
+				setup = append(setup, fmt.Sprintf("%s := vsel.RecvCase(%s)", v, text(u.X)))
+			case *ast.AssignStmt: // x := <-ch   x, ok := <-ch   (or =)
+				u := c.Rhs[0].(*ast.UnaryExpr)
+				setup = append(setup, fmt.Sprintf("%s := vsel.RecvCase(%s)", v, text(u.X)))
+				var lhs []string
+				for _, l := range c.Lhs {
+					lhs = append(lhs, text(l))
+				}
+				get := "Val()"
+				if len(lhs) == 2 {
+					get = "Val2()"
+				}
+				hdr += fmt.Sprintf(" %s %s %s.%s;", strings.Join(lhs, ", "), c.Tok.String(), v, get)
+			default:
+				bad = fmt.Errorf("%s: unexpected comm clause", fset.Position(cc.Pos()))
+			}
+			edits = append(edits, edit{hdrStart, hdrEnd, hdr})
+			k++
+		}
+		pos := fset.Position(sel.Pos())
+		head := "{ " + strings.Join(setup, "; ")
+		if len(setup) > 0 {
+			head += "; "
+		}
+		head += fmt.Sprintf("switch vsel.Select(%q, %v", fmt.Sprintf("%s:%d", filepath.Base(name), pos.Line), hasDefault)
+		for _, nm := range names {
+			head += ", " + nm
+		}
+		head += ") {"
+		edits = append(edits, edit{off(sel.Pos()), off(sel.Body.Lbrace) + 1, head})
+		// (the default arm keeps a select whose arms all return a terminating statement)
+		edits = append(edits, edit{off(sel.Body.Rbrace), off(sel.Body.Rbrace) + 1, "default: panic(\"vsel: no such arm\") }}"})
+		return true
+	})
+	if bad != nil {
+		return nil, 0, bad
+	}
+	if count == 0 {
+		return data, 0, nil
+	}
+	// the import: appended to the first import declaration's line
+	var imp *ast.GenDecl
+	for _, d := range f.Decls {
+		if g, ok := d.(*ast.GenDecl); ok && g.Tok == token.IMPORT {
+			imp = g
+			break
+		}
+	}
+	if imp == nil {
+		return nil, 0, fmt.Errorf("%s: no import declaration", name)
+	}
+	if imp.Lparen.IsValid() {
+		edits = append(edits, edit{off(imp.Lparen) + 1, off(imp.Lparen) + 1, "vsel " + strconv.Quote(shimPrefix+"vsel") + ";"})
+	} else {
+		edits = append(edits, edit{off(imp.Pos()), off(imp.Pos()), "import vsel " + strconv.Quote(shimPrefix+"vsel") + ";"})
+	}
+	sort.Slice(edits, func(i, j int) bool { return edits[i].start > edits[j].start })
+	out := append([]byte{}, data...)
+	for _, e := range edits {
+		out = append(out[:e.start], append([]byte(e.text), out[e.end:]...)...)
+	}
+	return out, count, nil
 }
